@@ -37,10 +37,10 @@ func Main() {
 		return f == "" || strings.Contains(","+f+",", ","+g+",")
 	}
 	if want("corpus") {
-		r.Cases("corpus", len(scenarios()), core.Opts{Workers: 8}, corpus)
+		r.Cases("corpus", len(scenarios()), core.Opts{Workers: 8}, guarded(300, corpus))
 	}
 	if want("history") {
-		r.Cases("history", r.N(300, 30000), core.Opts{Workers: 16}, history)
+		r.Cases("history", r.N(300, 30000), core.Opts{Workers: 16}, guarded(300, history))
 	}
 
 	// concurrent histories under the race detector, in child processes
